@@ -436,6 +436,12 @@ func (p *Element) Neg(p1 *Element) *Element {
 
 // ScalarMul sets p to p1*s.
 func (p *Element) ScalarMul(p1 *Element, scalarMont *fr.Element) *Element {
+	// The GLV endomorphism of the underlying library is not defined on the points
+	// with x = 0 (it yields the invalid triple (0:0:0)); these are the two
+	// representatives of the identity element, and s*identity = identity.
+	if p1.inner.X.IsZero() && !p1.inner.Y.IsZero() {
+		return p.SetIdentity()
+	}
 	var bigScalar big.Int
 	scalarMont.ToBigIntRegular(&bigScalar)
 	p.inner.ScalarMultiplication(&p1.inner, &bigScalar)
